@@ -9,18 +9,7 @@ Import Scion.Model.Router.Router Network NetWalk.
 
 Lemma run_with_scion macq t now : forall fuel l p,
   run_with (scion_proc macq now) t fuel l p = run_fuel macq t now fuel l p.
-Proof.
-  induction fuel as [|fuel IH]; intros l p; [reflexivity|].
-  cbn [run_with run_fuel]. unfold scion_proc at 1.
-  destruct (find_as t (l_ia l)) as [a|]; [|reflexivity].
-  destruct (process_scion (macq (a_key a)) (cfg_of a (l_rtr l)) now (l_ing l) p); try reflexivity.
-  destruct dst; [reflexivity|].
-  destruct (find_nif (a_ifs a) egress) as [f|]; [|reflexivity].
-  destruct (ni_owner f =? l_rtr l)%N.
-  - destruct (find_as t (ni_nbr f)) as [b|]; [|reflexivity].
-    destruct (find_nif (a_ifs b) (ni_remote f)) as [g|]; [|reflexivity]. now rewrite IH.
-  - now rewrite IH.
-Qed.
+Proof. intros fuel l p. reflexivity. Qed.   (* the two fixpoints have convertible bodies *)
 
 Definition is_delivered (f : final) : Prop :=
   match f with Delivered _ _ _ _ => True | _ => False end.
